@@ -437,7 +437,7 @@ CALL_TEXT = {
     ("function_name", "native function"): "native functions have no `name`",
     ("effect", "native function"): "native method read from an object stays bound to that object: call / apply / "
                                    "bind / a different receiver do not change its this",
-    ("this", "getter/setter"): "",
+    ("this", "bound function"): "binding a bound function again replaces its this (the first binding must win)",
 }
 
 
@@ -500,6 +500,7 @@ def extra_coverage(res):
         "traces_validated_against_impl": hist_cases - dis,
         "histories": hist_cases,
         "histories_disagreeing": dis,
+        "histories_differing_only_in_getPrototypeOf_of_F_prototype": DIAG["primary"].get("base_proto", 0),
         "probes_per_observation": G.N_PROBES,
         "explanation": "states = distinct reference (V8) observation vectors reached; transitions = distinct "
                        "(reference state, statement) pairs executed on the engine and compared; a trace is validated "
